@@ -215,6 +215,9 @@ func (fs *FS) OpenFile(name string, flag int, perm hackpadfs.FileMode) (afFile h
 		if err != nil {
 			return nil, fs.wrapperErr("open", name, err)
 		}
+		if !files[1].info().IsDir() {
+			return nil, fs.wrapperErr("open", name, hackpadfs.ErrNotDir)
+		}
 		storeFile = fs.newFile(name, flag, perm&hackpadfs.ModePerm)
 		if err := fs.setFile(name, storeFile.fileData); err != nil {
 			return nil, fs.wrapperErr("open", name, err)
